@@ -59,9 +59,19 @@ EXPLANATION = (
     "kwargs_preserved, request/reply/exception round trips, try/catch taking the same branch in both semantics. "
     "Language covered: see lean/RpycModel/Proto/Calls.lean.")
 
+class Boom(BaseException):
+    """a user exception that derives from BaseException, not from Exception"""
+
+
+import asyncio.exceptions  # noqa: E402  (CancelledError: a BaseException since 3.8)
+
+# classes derived from BaseException but not from Exception: `except Exception` lets them pass; the peer must still
+# report them to the requester (SystemExit / KeyboardInterrupt are left out: their routing is configuration)
+BASE_ONLY = [GeneratorExit, asyncio.exceptions.CancelledError, Boom]
 CLASSES = [ValueError, KeyError, IndexError, TypeError, ZeroDivisionError, RuntimeError, StopIteration,
-           AssertionError, NameError]
+           AssertionError, NameError] + BASE_ONLY
 CLASS_BY_NAME = dict((c.__name__, c) for c in CLASSES)
+CATCH_BY_NAME = dict(CLASS_BY_NAME, BaseException=BaseException)
 KW_NAMES = ["a", "b", "x", "key", "self", "args", "kw_1", "", "é", "a b", "\U0001F600", "class", "\ud800"]
 MAX_INVOCATIONS = 120
 
@@ -106,7 +116,38 @@ class Color(enum.Enum):
         return "enum-" + self.name
 
 
-DATA_KINDS = ["list", "list", "dict", "namedtuple", "tuple-subclass", "str-subclass", "int-subclass", "bytes-subclass",
+def _same_named_class(variant):
+    """two DIFFERENT classes that share `__module__` and `__qualname__` ("Shape") but not their special methods: a proxy
+    type built for the one must not be reused for the other"""
+    if variant == "call":
+        class Shape(object):
+            def __init__(self, k):
+                self.probe = "shape-call-%d" % k
+
+            def __call__(self, x):
+                return ("called", x)
+    else:
+        class Shape(object):
+            def __init__(self, k):
+                self.probe = "shape-seq-%d" % k
+                self.items = [k, k + 1, k + 2]
+
+            def __len__(self):
+                return len(self.items)
+
+            def __iter__(self):
+                return iter(self.items)
+
+            def __getitem__(self, i):
+                return self.items[i]
+    Shape.__qualname__ = "Shape"
+    Shape.__module__ = __name__
+    return Shape
+
+
+SHAPE_CLASSES = {"shape-call": _same_named_class("call"), "shape-seq": _same_named_class("seq")}
+
+DATA_KINDS = ["shape-call", "shape-seq", "list", "list", "dict", "namedtuple", "tuple-subclass", "str-subclass", "int-subclass", "bytes-subclass",
               "float-subclass", "frozenset-subclass", "enum"]
 
 
@@ -128,6 +169,8 @@ def make_data(kind, k):
         return Point("namedtuple-%d" % k, k)
     if kind == "enum":
         return [Color.RED, Color.GREEN, Color.BLUE][k % 3]
+    if kind in SHAPE_CLASSES:
+        return SHAPE_CLASSES[kind](k)
     base = {"tuple-subclass": lambda: TupleSub((k, "x")), "str-subclass": lambda: StrSub("s%d" % k),
             "int-subclass": lambda: IntSub(k), "bytes-subclass": lambda: BytesSub(b"b%d" % k),
             "float-subclass": lambda: FloatSub(k + 0.5), "frozenset-subclass": lambda: FrozensetSub([k, "y"])}[kind]()
@@ -447,15 +490,31 @@ class World(object):
             return                      # one of the program's functions
         if r is None and brine.dumpable(x):
             return                      # an immutable value: compared by value elsewhere
-        try:
-            cls = x.__class__.__name__
-        except Exception as ex:  # noqa
-            cls = "!" + type(ex).__name__
+        if r is not None and self.kind_of.get(r[1]) in SHAPE_CLASSES:
+            # not importable by name (two classes share it): `proxy.__class__` would have to be fetched from the peer,
+            # and `__class__` is not a public name - a harness artefact, not compared
+            cls = "Shape"
+        else:
+            try:
+                cls = x.__class__.__name__
+            except Exception as ex:  # noqa
+                cls = "!" + type(ex).__name__
         try:
             probe = repr(x.probe)
         except Exception as ex:  # noqa
             probe = "!" + type(ex).__name__
-        self.obs.append((where, cls, probe, "R%s%d" % r if r is not None else "a copy"))
+        # what the special methods of its class give: len(), and a call for the callable one of the same-named classes
+        try:
+            size = len(x)
+        except Exception as ex:  # noqa
+            size = "!" + type(ex).__name__
+        called = None
+        if r is not None and self.kind_of.get(r[1]) == "shape-call":
+            try:
+                called = repr(x(1))
+            except Exception as ex:  # noqa
+                called = "!" + type(ex).__name__
+        self.obs.append((where, cls, probe, "R%s%d" % r if r is not None else "a copy", size, called))
 
     # -- the interpreter
     def invoke(self, fid, args, kwargs):
@@ -516,10 +575,12 @@ class World(object):
             elif k == "try":
                 _, body, pat, handler = s
                 saved = dict(env["vars"])
-                cls = Exception if pat is None else CLASS_BY_NAME[pat]
+                cls = Exception if pat is None else CATCH_BY_NAME[pat]
                 try:
                     r = self.block(side, body, env)
                 except cls as ex:
+                    if isinstance(ex, (Budget, KeyboardInterrupt, SystemExit)):
+                        raise
                     self.stats["caught"] += 1
                     if hasattr(ex, "_remote_tb"):
                         self.stats["caught_remote"] += 1
@@ -581,12 +642,13 @@ def show_outcome(world, fn):
         if world.kind_of:
             world.observe(("root",), v)
         out = "ret " + world.text(v)
-    except Budget:
+    except (Budget, KeyboardInterrupt, SystemExit):
         raise
-    except Exception as ex:  # noqa
+    except BaseException as ex:  # noqa
         cls = type(ex)
         name = cls.__name__
-        if cls.__module__ != "builtins":
+        known = CLASS_BY_NAME.get(name)
+        if cls.__module__ != "builtins" and not (known is not None and known.__module__ == cls.__module__):
             name = cls.__module__ + "." + name
         raw = list(ex.args)
         args = [norm_arg(a) for a in ex.args]
@@ -622,7 +684,9 @@ def run_dist(world):
     info = {}
     with net.installed():
         # public attributes readable: the observation `x.probe` of a by-reference argument is an attribute read
-        ca, cb = net.connect_pair(None, SideB(), dict(allow_public_attrs=True), dict(allow_public_attrs=True))
+        # custom exception classes (asyncio's CancelledError, Boom) are rebuilt as themselves: the modules are imported
+        cfg = dict(allow_public_attrs=True, instantiate_custom_exceptions=True)
+        ca, cb = net.connect_pair(None, SideB(), dict(cfg), dict(cfg))
         # watch both tables: a LOCAL_REF that does not resolve although the peer still holds (or has just sent) a
         # reference is the signature of a known finding (see KNOWN_RELEASE_RACE)
         from rpyc.lib.colls import RefCountingColl
@@ -749,7 +813,8 @@ class ProgGen(object):
     earlier (shared sub-trees) or a callable it was handed; ~30 % of the functions raise; try/except at random levels"""
 
     RAISED = ["ValueError", "KeyError", "RuntimeError", "ValueError", "KeyError", "IndexError", "TypeError",
-              "ZeroDivisionError", "StopIteration", "AssertionError", "NameError"]
+              "ZeroDivisionError", "StopIteration", "AssertionError", "NameError", "GeneratorExit", "CancelledError", "Boom"]
+    CAUGHT = RAISED + ["BaseException", "BaseException"]
 
     def __init__(self, r, max_depth=8):
         self.r = r
@@ -893,7 +958,7 @@ class ProgGen(object):
                     raise_at = None
                     raises = False
                 body = self.block(owner, scope, depth, False, nest + 1, raises=inner)
-                pat = None if r.chance(1, 2) else r.choice(self.RAISED)
+                pat = None if r.chance(1, 2) else r.choice(self.CAUGHT)
                 handler = self.block(owner, scope, depth, False, nest + 1, raises=r.chance(1, 12))
                 out.append(("try", body, pat, handler))
             else:
@@ -1037,6 +1102,25 @@ def boundary_programs():
     fns = [dict(owner="A", body=[("call", 0, V(R_("B", 1)), [V(R_("A", 2))], [("nt", V(R_("A", 3)))]), ("raise", "ValueError", [("v", 0), V(R_("A", 4))])]),
            dict(owner="B", body=[("ret", ("t", [("k", "nt"), ("a", 0)]))])]
     out.append(dict(fns=fns, data=["A:tuple-subclass", "A:namedtuple", "A:str-subclass"], entry=dict(callee=R_("A", 0), args=[], kwargs=[])))
+    # two different classes with the same module and name but different special methods, proxied one after the other
+    for first, second in (("shape-call", "shape-seq"), ("shape-seq", "shape-call")):
+        fns = [dict(owner="B", body=[("call", 0, V(R_("A", 1)), [("a", 0)], []), ("call", 1, V(R_("A", 1)), [("a", 1)], []), ("ret", ("t", [("v", 0), ("v", 1)]))]),
+               dict(owner="A", body=[("ret", ("a", 0))])]
+        out.append(dict(fns=fns, data=["A:" + first, "A:" + second], entry=dict(callee=R_("B", 0), args=[R_("A", 2), R_("A", 3)], kwargs=[])))
+    # exceptions that derive from BaseException only: reported to the requester like any other; `except Exception` lets
+    # them pass, `except <class>` / `except BaseException` at an outer level on the other side catch them
+    for cname in ("GeneratorExit", "CancelledError", "Boom"):
+        fns = [dict(owner="A", body=[("try", [("call", 0, V(R_("B", 1)), [], [])], cname, [("ret", V("caught " + cname))])]),
+               dict(owner="B", body=[("try", [("call", 0, V(R_("A", 2)), [V(1)], [])], None, [("ret", V("wrong: except Exception"))]), ("ret", V("wrong: not raised"))]),
+               dict(owner="A", body=[("raise", cname, [("a", 0), V("x")])])]
+        out.append(dict(fns=fns, data=[], entry=dict(callee=R_("A", 0), args=[], kwargs=[])))
+        fns = [dict(owner="B", body=[("raise", cname, [])])]
+        out.append(dict(fns=fns, data=[], entry=dict(callee=R_("B", 0), args=[], kwargs=[])))
+    fns = [dict(owner="B", body=[("try", [("call", 0, V(R_("A", 1)), [], [])], "BaseException", [("call", 1, V(R_("A", 2)), [], []), ("ret", ("v", 1))])]),
+           dict(owner="A", body=[("call", 0, V(R_("B", 3)), [], [])]),
+           dict(owner="A", body=[("ret", V("after the catch"))]),
+           dict(owner="B", body=[("raise", "Boom", [V((1, "b"))])])]
+    out.append(dict(fns=fns, data=[], entry=dict(callee=R_("B", 0), args=[], kwargs=[])))
     # a reference being received must not be overtaken by its own release notice: the reply carries an object of a class
     # the requester has not seen (its proxy needs a HANDLE_INSPECT round trip) next to the requester's own object, whose
     # only proxy at the callee dies when the request ends; the same shapes as request arguments and in nested tuples
@@ -1236,7 +1320,7 @@ def correspondence(ctx):
         c.count("exceptions-caught-after-crossing-the-connection", st["caught_remote"])
         c.count("frames", res.info.get("frames", 0))
         c.count("invocations", sum(res.dist[1]))
-        for (_where, cls, _probe, _ref) in res.obs_local:
+        for (_where, cls, _probe, _ref, _size, _called) in res.obs_local:
             c.count("by-reference object observed at a callee / the root (real code only):" + cls)
         if st["remote_calls"] > 0:
             c.signatures.add(signature_of(prog, res))
